@@ -274,6 +274,20 @@ def run_clog2(sh):
   for k in range(1, 1101):
     for N in ((1 << k) - 1, 1 << k, (1 << k) + 1):
       one(N)
+  # real N >= 1 (python true division gives them: clog2( nbits / 8 )): min{k : 2^k >= N} with exactly representable values
+  from fractions import Fraction
+  for k in range(0, 50):
+    for frac in (Fraction(1, 2), Fraction(1, 4), Fraction(3, 4), Fraction(1, 1024)):
+      for base in ((1 << k), (1 << k) + 1, max(1, (1 << k) - 1)):
+        N = float(base + frac)
+        if Fraction(N) != base + frac: continue           # not exactly representable: skip
+        exp, p2 = 0, Fraction(1)
+        while p2 < base + frac: p2 *= 2; exp += 1
+        try: got = clog2(N)
+        except Exception as e: got = "raise " + type(e).__name__
+        sh.count("clog2_checks"); sh.count("clog2_noninteger_checks")
+        if got != exp:
+          sh.violation("clog2-wrong", {"N": repr(N), "got": got, "expected": exp, "non_integer": True})
   for bad in (0, -1, -8):
     try:
       clog2(bad)
